@@ -57,6 +57,7 @@ def warm_quick():
   runs.append(('LinenScope', 'LinenScope_lift_mc.cfg', dict(workers=16, timeout=3000)))
   runs.append(('LinenScope', 'LinenScope_lift_jit.cfg', dict(workers=1, timeout=3000)))
   runs.append(('LinenScope', 'LinenScope_lift_block.cfg', dict(workers=1, timeout=3000)))
+  runs.append(('LiftCache', 'LiftCache.cfg', dict(workers=1, timeout=900)))
   runs.append(('LinenSetup', 'LinenSetup_mc2.cfg', dict(workers=16, timeout=3000)))
   runs.append(('LinenSetup', 'LinenSetup_jattr.cfg', dict(workers=1, timeout=3000)))
   runs.append(('LinenSetup', 'LinenSetup_subset.cfg', dict(workers=1, timeout=3000)))
